@@ -160,6 +160,26 @@ func parseStyle(style string) (isCID bool, size string, customNames bool, err er
 func encBoundary(style string) bool { return strings.HasSuffix(style, "-enc") }
 
 func genFont(seed uint64, style string) (*cff.Font, error) {
+	if strings.HasPrefix(style, "cid-") && strings.HasSuffix(style, "-conv") {
+		// a simple font converted by Outlines.MakeCIDKeyed: the per-dictionary
+		// matrices it adds are exactly the identity
+		parts := strings.Split(style, "-")
+		f, err := genFont(seed, "simple-"+parts[1])
+		if err != nil {
+			return nil, err
+		}
+		r := vlib.NewRand(seed).Fork("conv/" + style)
+		n := len(f.Glyphs)
+		gid2cid := make([]cid.CID, n)
+		c := 0
+		for i := 1; i < n; i++ {
+			c += vlib.Pick(r, []int{1, 1, 2, 3})
+			gid2cid[i] = cid.CID(c)
+		}
+		f.Outlines.MakeCIDKeyed(&cid.SystemInfo{Registry: "Adobe", Ordering: "Identity", Supplement: 0}, gid2cid)
+		f.FDSelect = func(glyph.ID) int { return 0 }
+		return f, nil
+	}
 	isCID, size, customNames, err := parseStyle(style)
 	if err != nil {
 		return nil, err
@@ -207,8 +227,11 @@ func genFont(seed uint64, style string) (*cff.Font, error) {
 	}
 	if isCID {
 		info.FontMatrix = matrix.Identity
-		if r.Chance(1, 4) {
+		switch r.Intn(5) {
+		case 0:
 			info.FontMatrix = matrix.Matrix{1.25, 0, 0, 1.25, 0, 0}
+		case 1: // what a converted simple font keeps at the top level
+			info.FontMatrix = matrix.Matrix{0.001, 0, 0, 0.001, 0, 0}
 		}
 	} else {
 		info.FontMatrix = matrix.Matrix{0.001, 0, 0, 0.001, 0, 0}
@@ -309,8 +332,13 @@ func genFont(seed uint64, style string) (*cff.Font, error) {
 		for i := 0; i < np; i++ {
 			o.Private = append(o.Private, randPrivate(r))
 			fm := matrix.Matrix{0.001, 0, 0, 0.001, 0, 0}
-			if r.Chance(1, 4) {
+			switch r.Intn(6) {
+			case 0:
 				fm = matrix.Matrix{1.0 / 2048, 0, 0, 1.0 / 2048, 0, 0}
+			case 1, 2: // exactly the identity (what MakeCIDKeyed puts here)
+				fm = matrix.Identity
+			case 3:
+				fm = matrix.Matrix{0.0005, 0, 0.0001, 0.0005, 0, 0}
 			}
 			o.FontMatrices = append(o.FontMatrices, fm)
 		}
@@ -520,6 +548,17 @@ func compareFonts(f, g *cff.Font) (string, string) {
 		}
 		if len(g.Encoding) != 0 {
 			return "encoding", "encoding in a CID-keyed font"
+		}
+	}
+	if f.ROS == nil || f.FDSelect != nil {
+		for i := range f.Glyphs {
+			if i > 300 && i%97 != 0 {
+				continue
+			}
+			x, y := f.GlyphWidthPDF(glyph.ID(i)), g.GlyphWidthPDF(glyph.ID(i))
+			if math.Abs(x-y) > 1e-7*math.Max(math.Abs(x), math.Abs(y)) {
+				return "glyphwidthpdf", fmt.Sprintf("glyph %d: GlyphWidthPDF %v read back as %v", i, x, y)
+			}
 		}
 	}
 	for i := range f.Glyphs {
@@ -890,6 +929,16 @@ func witnessFont(name string) (*cff.Font, error) {
 		f.FontInfo.FontMatrix = matrix.Matrix{0.0010001, 0, 0, 0.0010001, 0, 0}
 	case "bluescale-near-default":
 		f.Private[0].BlueScale = 0.0396255
+	case "cid-identity-fd-matrix", "cid-default-fd-matrix":
+		f.ROS = &cid.SystemInfo{Registry: "Adobe", Ordering: "Identity"}
+		f.FontInfo.FontMatrix = matrix.Identity
+		f.Private = append(f.Private, &type1.PrivateDict{BlueScale: 0.039625, BlueShift: 7, BlueFuzz: 1})
+		f.FontMatrices = []matrix.Matrix{{0.001, 0, 0, 0.001, 0, 0}, matrix.Identity}
+		if name == "cid-default-fd-matrix" {
+			f.FontMatrices[1] = matrix.Matrix{0.0005, 0, 0, 0.0005, 0, 0}
+		}
+		f.FDSelect = func(g glyph.ID) int { return int(g) % 2 }
+		f.GIDToCID = []cid.CID{0, 1, 2, 3, 4}
 	case "width-fractional-default":
 		widths = []float64{500.5, 500.5, 500.5, 300.25, 700.75, 1000, 250}
 	case "width-fractional-nominal":
@@ -903,6 +952,9 @@ func witnessFont(name string) (*cff.Font, error) {
 		g := &cff.Glyph{Name: fmt.Sprintf("g%d", i), Width: w}
 		if i == 0 {
 			g.Name = ".notdef"
+		}
+		if f.ROS != nil {
+			g.Name = ""
 		}
 		f.Glyphs = append(f.Glyphs, g)
 	}
@@ -1132,6 +1184,10 @@ func genFonts(run *vlib.Run, r *vlib.Rand, tier string) {
 	n := vlib.Count(tier, 300, 2500)
 	for i := 0; i < n; i++ {
 		one(r.Uint64()>>1, styles[i%len(styles)])
+	}
+	// simple fonts converted by MakeCIDKeyed (identity per-dictionary matrices)
+	for i := 0; i < vlib.Count(tier, 30, 400); i++ {
+		one(r.Uint64()>>1, vlib.Pick(r, []string{"cid-s-conv", "cid-s-conv", "cid-m-conv"}))
 	}
 	// encodings with 250..256 encoded glyphs on fonts with 257+ glyphs
 	for i := 0; i < vlib.Count(tier, 40, 600); i++ {
